@@ -193,6 +193,7 @@ RECORDED = {"C01", "C02", "C03", "C04", "C05", "C06", "C08", "C10", "C11", "C13"
 
 
 APALACHE = {
+    "C08": "The interval algebra that judges port sets at full size (IvSubset, Compl, the lt / gt / range intervals) is also proved to be exactly set algebra on 1..65535 by Apalache (symbolic, lists of up to 3 intervals, complete by explicit witnesses, spec/apalache/PortLemma.tla).",
     "C10": "The limb arithmetic the trace module relies on is also proved equal to integer arithmetic at the real base 65536 by Apalache (symbolic, spec/apalache/LimbLemma.tla).",
     "C13": "The bit algebra SubW that judges containment at full size is also proved to be exactly set containment at W = 32 by Apalache (symbolic, sound for every address and complete by an explicit witness, spec/apalache/WildLemma.tla).",
 }
